@@ -45,7 +45,7 @@ def sh(cmd, cwd=None, timeout=3600):
     return p.returncode, p.stdout
 
 
-def build(prop_id, lean_targets):
+def build(prop_id, lean_targets, bins=False):
     """Regenerate Generated.lean from /repo, build the Lean driver + the property's theorem module,
     build the harness against the current /repo tree. Returns a dict of statuses (never raises)."""
     res = {}
@@ -68,6 +68,14 @@ def build(prop_id, lean_targets):
         rc, out = sh(["cargo", "build", "--offline"], cwd=HARNESS)
         res["harness_rc"] = rc
         res["harness_log"] = out[-6000:]
+        if bins and rc == 0:
+            # the real tftpd / tftpc binaries, built from the current tree into /verif (not into /repo)
+            rc2, out2 = sh(["cargo", "build", "--offline", "--features", "client", "--bins", "--manifest-path",
+                            os.path.join(REPO, "Cargo.toml"), "--target-dir", os.path.join(HARNESS, "target", "repo-bins")])
+            res["bins_rc"] = rc2
+            if rc2 != 0:
+                res["harness_rc"] = rc2
+                res["harness_log"] = out2[-6000:]
         res["build_s"] = round(time.time() - t0, 1)
     return res
 
